@@ -845,8 +845,9 @@ constexpr auto operator>=(QLike q1, Quantity<U, R> q2) -> decltype(as_quantity(q
 #if defined(__cpp_impl_three_way_comparison) && __cpp_impl_three_way_comparison >= 201907L
 template <typename U1, typename R1, typename U2, typename R2>
 constexpr auto operator<=>(const Quantity<U1, R1> &lhs, const Quantity<U2, R2> &rhs) {
-    using U = CommonUnitT<U1, U2>;
-    return lhs.in(U{}) <=> rhs.in(U{});
+    // Compare in the common type (common unit _and_ common rep), like the other comparisons.
+    using C = std::common_type_t<Quantity<U1, R1>, Quantity<U2, R2>>;
+    return detail::cast_to_common_type<C>(lhs).in(C::unit) <=> detail::cast_to_common_type<C>(rhs).in(C::unit);
 }
 #endif
 
